@@ -1,6 +1,6 @@
 (* TraceCheck.v — executable comparison of the trace-view model with observations of the
    real siglens code (used by the generated case files of C12). *)
-From SigM Require Import Base Trace.
+From SigM Require Import Base Trace TracePage.
 Open Scope N_scope.
 
 (* ---------- compact constructors for the case files ---------- *)
@@ -234,3 +234,41 @@ Definition self_qs (c : list N * nat * option N) : bool :=
   let '(arr, k, _) := c in
   if Nat.ltb k (length arr) && forallb (fun x => x <? 9223372036854775808) arr
   then optN_eqb (quickselect arr k) (Some (nth k (n_sort arr) 0)) else true.
+
+(* ---------- paged reads (TracePage) ---------- *)
+Fixpoint seqN (start : N) (k : nat) : list N :=
+  match k with O => [] | S k' => start :: seqN (start + 1) k' end.
+Definition lN_eqb : list N -> list N -> bool := list_eqb N.eqb.
+
+(* direct: the real head(size+from) -> scroller(from) tail on the records 0..n-1 handed over in batches of
+   the given sizes (the last batch takes the rest): (from, size, batch sizes, n, observed page) *)
+Definition check_scroll_page (c : N * N * list nat * nat * list N) : bool :=
+  let '(from, size, sizes, n, obs) := c in
+  lN_eqb (engine_page from size (cut sizes (seqN 0 n))) obs.
+
+(* direct: the read loop of a handler (short = false: until an empty page; true: until a short page) with
+   page size [page] over the records 0..n-1; the k-th request sees the batching [nth k sizess] *)
+Definition check_scroll_loop (c : N * list (list nat) * nat * bool * list N) : bool :=
+  let '(page, sizess, n, short, obs) := c in
+  let bat := fun from => cut (nth (N.to_nat (from / page)) sizess []) (seqN 0 n) in
+  lN_eqb (if short then paged_read_trace page bat n else paged_read_all page bat n) obs.
+
+(* a list of numbers written as descending runs: (start, length) = start, start-1, ... *)
+Fixpoint run_down (start : N) (k : nat) : list N :=
+  match k with O => [] | S k' => start :: run_down (start - 1) k' end.
+Definition unruns (rs : list (N * nat)) : list N := flat_map (fun r => run_down (fst r) (snd r)) rs.
+
+(* e2e: the pages from = 0, 1000, ... (size 1000) of one search text over hits with pairwise different
+   timestamps; [order] = the matching spans newest first (numbered in ingest order), [sizes] = the hits per
+   fetch of the searcher; lists as descending runs.  Every observed page is the model's page, the page after
+   the last one is empty, both read loops return what was observed — under the scenario's batching and as one
+   batch — and that is the newest [reachable PAGE] = 11 000 spans (all of them when there are no more) *)
+Definition check_span_pages (order : list (N * nat)) (sizes : list nat) (pages : list (list (N * nat))) : bool :=
+  let order := unruns order in
+  let pages := map unruns pages in
+  let bs := cut sizes order in
+  forallb (fun kp => lN_eqb (search_page (PAGE * N.of_nat (fst kp)) PAGE bs) (snd kp))
+          (combine (seq 0 (S (length pages))) (pages ++ [[]]))
+  && lN_eqb (paged_read_all PAGE (fun _ => bs) (length order)) (concat pages)
+  && lN_eqb (paged_read_trace PAGE (fun _ => [order]) (length order)) (concat pages)
+  && lN_eqb (firstn (N.to_nat (reachable PAGE)) order) (concat pages).
